@@ -384,6 +384,42 @@ func c12Seams(a *acc) {
 			a.fail("C12|"+kind+"|results-differ", fmt.Sprintf("%s delivers %s ; parenthesised predicate delivers %s", cse.plain, outs[0], outs[1]), map[string]any{"plain": cse.plain, "paren": cse.paren}, outs[1], outs[0])
 		}
 	}
+	// the route a HAVING predicate takes must not depend on how the alias it names is spelt: aliases that carry
+	// a keyword as an underscore- or digit-delimited segment decide as the neutral alias s does
+	for _, p := range []string{"%s > 1", "%s >= 2.5 AND %s < 100", "%s != 1", "(%s > 1)", "%s > 100 OR %s > 1 AND %s < 3"} {
+		run := func(alias string) string {
+			sql := "SELECT k, sum(v) AS " + alias + " FROM stream GROUP BY k, CountingWindow(1) HAVING " + strings.ReplaceAll(p, "%s", alias)
+			r := detExec(sql, detOpts{Eager: true}, func(e *Env) {
+				for j, v := range vals {
+					row := Row{"k": "a", "id": j}
+					if v != nil {
+						row["v"] = v
+					}
+					e.Emit(row)
+				}
+			})
+			if r.ExecErr != "" {
+				return "ERR " + r.ExecErr
+			}
+			var out []string
+			for _, b := range r.Batches {
+				for _, row := range b {
+					out = append(out, fmt.Sprint(row[alias]))
+				}
+			}
+			return strings.Join(out, ";")
+		}
+		want := run("s")
+		for _, alias := range []string{"case_sum", "sum_case", "s_case_s", "end_s", "s_when", "then_1", "else2", "caseSum", "in_case_of"} {
+			got := run(alias)
+			a.r.Evaluations += int64(len(vals))
+			a.r.States += int64(len(vals))
+			a.r.Nontrivial += int64(len(vals))
+			if got != want {
+				a.fail("C12|having|alias-spelling-changes-result", fmt.Sprintf("HAVING %s over sum(v) AS %s keeps [%s]; with the alias s it keeps [%s]", strings.ReplaceAll(p, "%s", alias), alias, got, want), map[string]any{"predicate": p, "alias": alias}, want, got)
+			}
+		}
+	}
 	// OVER (... WHEN p)
 	rows := []Row{{"k": "a", "v": 1}, {"k": "a", "v": 2.5}, {"k": "a", "v": int64(9007199254740993)}, {"k": "a", "v": -1}, {"k": "a"}, {"k": "a", "v": "x"}}
 	for _, p := range []string{"v > 0", "v >= 2.5", "v > 9007199254740992", "v != 1"} {
